@@ -60,6 +60,14 @@ def step1 (s : St) (line : String) : St × String :=
     match c.toNat?, lo.toInt?, hi.toInt? with
     | some c, some lo, some hi =>
       if c ≥ s.n || statusOf s c == .down then (s, "bad-op") else
+      if kind == "showtv" then
+        -- SHOW TAG VALUES fans out to every node over every shard of the database and unites
+        -- what the nodes that answer return (the errors of the others are dropped)
+        let hosts := (s.shards.filter fun sh => metaOK s c sh).flatMap fun sh => sh.pts.map (·.host)
+        let hs := sortBy (· < ·) hosts.eraseDups
+        if hs.isEmpty then (s, "ok -")
+        else (s, "ok [m{}(key,value) " ++ " ".intercalate (hs.map fun h => s!"host,h{h}") ++ "]")
+      else
       if kind == "explain" then
         -- the cost estimate: the field types of every needed shard must be learnable, and every
         -- needed shard that exists is counted once (asked of a node that answers)
